@@ -47,7 +47,8 @@ def _build(cfg):
     subs = []
     for i, s in enumerate(cfg["subs"]):
         bus = wishbone.Interface(addr_width=s["aw"], data_width=s["dw"], granularity=s["gran"],
-                                 features=fe(s["feat"]), path=(f"sub{i}",))
+                                 features=fe(s["feat"]),
+                                 path={"same": ("periph", "bus"), "none": ()}.get(cfg.get("names"), (f"sub{i}",)))
         bus.memory_map = MemoryMap(addr_width=s["aw"] + _log2(s["dw"] // s["gran"]), data_width=s["gran"])
         if s.get("align_to") is not None:
             dec.align_to(s["align_to"])
@@ -94,7 +95,8 @@ def configs(tier, seed):
         feat = [f for f in FEATS if rnd.random() < 0.5]
         cfg = {"aw": aw, "dw": dw, "gran": gran, "feat": feat, "align": rnd.choice([0, 0, 0, 1, 2, 3]), "subs": [],
                "staged": rnd.choice([None, None, 1, 2]), "enum": rnd.random() < 0.4,
-               "refuse_after": rnd.choice([None, None, 0, 1]), "shared_map": tries % 5 == 2}
+               "refuse_after": rnd.choice([None, None, 0, 1]), "shared_map": tries % 5 == 2,
+               "names": {3: "same", 5: "none"}.get(tries % 7)}
         for i in range(rnd.randint(0 if rnd.random() < 0.05 else 1, 3 if tier == "quick" else 4)):
             sparse = rnd.random() < 0.35
             if sparse:
